@@ -1386,4 +1386,109 @@ theorem srchInv_run (cfg : Cfg) (hsf : cfg.serviceFirst = true) (hrw : cfg.resta
     ⟨serverOK_init d t0, cv_empty d t0⟩
 
 
+theorem validateRetraction_ne_panic (s : Store) (subj : String) (vp : VP) (p : String) :
+    validateRetraction s subj vp ≠ .panic p := by
+  unfold validateRetraction
+  split
+  · simp
+  · split
+    · simp
+    · split
+      · simp
+      · split <;> simp
+
+theorem validateRegistration_ne_panic (e : Nat) (vp : VP) (p : String) : validateRegistration e vp ≠ .panic p := by
+  unfold validateRegistration
+  split
+  · simp
+  · split
+    · simp
+    · split <;> simp
+
+theorem verify_ne_panic (d : Def) (s : Store) (now : Nat) (side : Side) (vp : VP) (p : String) :
+    verify d s now side vp ≠ .panic p := by
+  unfold verify
+  split
+  · simp
+  · split
+    · simp
+    · split
+      · simp
+      · split
+        · simp
+        · split
+          · simp
+          · split
+            · simp
+            · split
+              · simp
+              · split
+                · simp
+                · rename_i hb
+                  split at hb
+                  · exact absurd hb (validateRetraction_ne_panic _ _ _ _)
+                  · exact absurd hb (validateRegistration_ne_panic _ _ _)
+                · split <;> simp
+
+/-- `Register` never panics, whatever is submitted -/
+theorem register_ne_panic (d : Def) (s : Store) (now fresh : Nat) (vp : VP) (p : String) :
+    (register d s now fresh vp).2 ≠ .panic p := by
+  rcases register_cases d s now fresh vp with ⟨o, ho, _⟩ | ⟨subj, e, id, hA, hid, hk, hreg⟩
+  · rw [ho]
+    -- the unchanged cases are: verify's error, or "exists"
+    intro h
+    have h' : o = .panic p := h
+    subst h'
+    unfold register at ho
+    cases hv : verify d s now .server vp with
+    | err e => rw [hv] at ho; simp at ho
+    | panic q => exact absurd hv (verify_ne_panic d s now .server vp q)
+    | ok u =>
+      obtain ⟨subj, e, hA⟩ := (verify_ok_acceptable d .server s now vp).mp hv
+      obtain ⟨id, hid⟩ := hA.hasId
+      obtain ⟨m, hsig, _⟩ := hA.signer
+      rw [hv] at ho
+      simp only [hsig, hid] at ho
+      cases hk : s.hasKey subj id with
+      | true => rw [hk] at ho; simp at ho
+      | false =>
+        rw [hk] at ho
+        have := add_eq s now vp 0 0 fresh subj m id e hsig hid hA.exp hA.jwt
+        simp only [Bool.false_eq_true, if_false] at ho
+        rw [this] at ho
+        simp at ho
+  · rw [hreg]; simp
+
+/-- accepted exactly when the registration predicate holds and the same presentation is not listed already -/
+theorem register_ok_iff (d : Def) (s : Store) (now fresh : Nat) (vp : VP) :
+    (register d s now fresh vp).2 = .ok () ↔
+      ∃ subj e id, Acceptable d .server s now vp subj e ∧ vp.id = some id ∧ s.hasKey subj id = false := by
+  constructor
+  · intro h
+    rcases register_cases d s now fresh vp with ⟨o, ho, hne⟩ | ⟨subj, e, id, hA, hid, hk, _⟩
+    · rw [ho] at h; exact absurd h hne
+    · exact ⟨subj, e, id, hA, hid, hk⟩
+  · rintro ⟨subj, e, id, hA, hid, hk⟩
+    have hv := (verify_ok_acceptable d .server s now vp).mpr ⟨subj, e, hA⟩
+    obtain ⟨m, hsig, _⟩ := hA.signer
+    have := add_eq s now vp 0 0 fresh subj m id e hsig hid hA.exp hA.jwt
+    unfold register
+    simp only [hv, hsig, hid, hk, Bool.false_eq_true, if_false]
+    rw [this]
+
+
+/-- against the real server the client's update never fails: no error, no nil dereference -/
+theorem pollB_ok {K : VP → Prop} (cfg : Cfg) (hsf : cfg.serviceFirst = true) (hrw : cfg.restartOnWipe = true)
+    (d : Def) (w : World) (perm : List VP → List VP) (hperm : ∀ l, (perm l).Perm l) (h : WInv K w)
+    (p : Pending) (hp : w.pending = some p) : (step cfg d w (.pollB perm)).2 = .ok () := by
+  unfold step
+  simp only [hp, hsf, if_true]
+  obtain ⟨hresp, _⟩ := respOf_perm (S := w.S) (after := p.after) hperm
+  rcases clientApply_cases cfg hrw d w.C w.t w.ctr p.seed p.ts (perm ((w.S.rowsAfter p.after).map (·.vp)))
+    with ⟨_, _, heq⟩ | ⟨_, heq⟩
+  · rw [heq]
+  · rw [heq]
+    exact (pa_loop h.srv h.sK d w.t p.after p.seed p.ts _ hresp w.C w.ctr h.cli).2
+
+
 end Nuts.C16
